@@ -11,21 +11,15 @@ TIERS = {
     "quick": dict(
         maxlen=5, line_copies=1, dssr_copies=1, nsynth=6, others=150, main_listings=12, main_dssr=6,
         corpus=["184D.cif"],
-        mc=["label_full3", "label_lw5", "label_st5", "label_bph6", "listing_1", "listing_2",
-            "dssr_pairs1", "dssr_stacks4", "dssr_2"]),
+        mc="quick", chunks=8),
     "thorough": dict(
         maxlen=6, line_copies=3, dssr_copies=8, nsynth=40, others=3000, main_listings=150, main_dssr=60,
         corpus=["184D.cif", "1E7K_1_C.cif", "2HY9.cif"],
-        mc=["label_full3", "label_full4", "label_lw5", "label_st5", "label_bph6", "label_bph6R", "label_mix6",
-            "listing_1", "listing_1w", "listing_2", "listing_3", "dssr_pairs1", "dssr_stacks4", "dssr_2", "dssr_3"]),
+        mc="thorough", chunks=16),
 }
-MIN_ACTIONS = {
-    "label": ("StripN", "StripA", "TryBR", "TryBPh", "TryStack", "TryLW", "FallThrough"),
-    "listing": ("SkipLine", "ParseLine", "TooFewParts", "ParseUnit1", "ParseUnit2", "Unify", "AppendItem", "Catch", "Eof"),
-    "dssr": ("DssrPair", "DssrPairsEnd", "DssrStackStep", "DssrStackEnd", "DssrDone"),
-}
-MIN_ACTIONS_CFG = {"dssr_pairs1": ("DssrPair", "DssrPairsEnd", "DssrDone"),
-                   "dssr_stacks4": ("DssrPairsEnd", "DssrStackStep", "DssrStackEnd", "DssrDone")}
+MIN_ACTIONS = ("StripN", "StripA", "TryBR", "TryBPh", "TryStack", "TryLW", "FallThrough",
+               "SkipLine", "ParseLine", "TooFewParts", "ParseUnit1", "ParseUnit2", "Unify", "AppendItem", "Catch", "Eof",
+               "DssrPair", "DssrPairsEnd", "DssrStackStep", "DssrStackEnd", "DssrDone")
 NEGATIVE = [("dssr_asimpl", "DssrPairsExact",
              "as implemented (LwTest = dir): an LW string that is a class attribute name raises KeyError"),
             ("listing_uncontained", "Fr3dNeverRaises",
@@ -33,8 +27,8 @@ NEGATIVE = [("dssr_asimpl", "DssrPairsExact",
 
 
 def _mc(args):
-    name, expect, sc = args
-    return lib.mc(MODULE, f"{MODULE}_{name}.cfg", sc, expect_violation=expect, workers=4, xmx="4g")
+    name, expect, sc, workers = args
+    return lib.mc(MODULE, f"{MODULE}_{name}.cfg", sc, expect_violation=expect, workers=workers, xmx="6g")
 
 
 def _nontrivial(c):
@@ -95,21 +89,19 @@ def run(tier):
         mark("record")
         allc = label_cases + recorded
         # ---- design-level model checks (+ negative controls) run beside the trace validation
-        with ThreadPoolExecutor(max_workers=6) as ex:
-            fut_mc = [ex.submit(_mc, (name, None, sc)) for name in t["mc"]]
-            fut_neg = [ex.submit(_mc, (name, inv, sc)) for name, inv, _ in NEGATIVE]
-            res = lib.trace_validate("Trace_ExternalImport", "Trace_ExternalImport.cfg", allc, sc)
+        with ThreadPoolExecutor(max_workers=3) as ex:
+            fut_mc = ex.submit(_mc, (t["mc"], None, sc, lib.NCPU))
+            fut_neg = [ex.submit(_mc, (name, inv, sc, 2)) for name, inv, _ in NEGATIVE]
+            res = lib.trace_validate("Trace_ExternalImport", "Trace_ExternalImport.cfg", allc, sc, chunks=t["chunks"])
             mark("trace_validate")
-            mcs = [f.result() for f in fut_mc]
+            r = fut_mc.result()
             negs = [f.result() for f in fut_neg]
         mark("mc_wait")
         cov_phases = phases
-        for name, r in zip(t["mc"], mcs):
-            mode = name.split("_")[0]
-            rep.add_mc(r, f"adapter algorithm model, mode {mode} ({name}): C19 clauses as invariants",
-                       min_actions=MIN_ACTIONS_CFG.get(name, MIN_ACTIONS[mode]))
-        for (name, inv, what), r in zip(NEGATIVE, negs):
-            rep.add_mc(r, f"{what}; must violate {inv}", negative_control=True)
+        rep.add_mc(r, "adapter algorithm model (unify_classification, parse_fr3d_output, parse_dssr_output) over the "
+                      f"{t['mc']} input spaces: C19 clauses as invariants", min_actions=MIN_ACTIONS)
+        for (name, inv, what), rn in zip(NEGATIVE, negs):
+            rep.add_mc(rn, f"{what}; must violate {inv}", negative_control=True)
         rep.add_trace(res, {c["id"]: c for c in allc}, "C19")
         cov = rep.cov
         tried = sum(b["count"] for b in blocks)
